@@ -58,6 +58,11 @@ namespace c04
         C04_TN(uint64_t, "u64")
         C04_TN(float, "f32")
         C04_TN(double, "f64")
+        // distinct builtin types of the same size as a fixed-width one (int64_t is long on this ABI; char is neither int8_t nor uint8_t);
+        // the trailing letter keeps the form names unique, the leading letter+digits are what the value codec reads
+        C04_TN(long long, "i64LL")
+        C04_TN(unsigned long long, "u64LL")
+        C04_TN(char, "i8C")
 #undef C04_TN
 
         template <class B>
@@ -302,6 +307,30 @@ namespace c04
                 out[out.size() - n + k].form = names[names.size() - n + k].c_str();
         }
 
+        template <class T, class U>
+        typename std::enable_if<std::is_same<T, U>::value>::type add_cvt_if(std::vector<OpEntry>&)
+        {
+        }
+        template <class T, class U>
+        typename std::enable_if<!std::is_same<T, U>::value>::type add_cvt_if(std::vector<OpEntry>& out)
+        {
+            add_cvt<T, U>(out);
+        }
+        template <class T>
+        void add_cvt_row(std::vector<OpEntry>& out)
+        {
+            add_cvt_if<T, int8_t>(out);
+            add_cvt_if<T, uint8_t>(out);
+            add_cvt_if<T, int16_t>(out);
+            add_cvt_if<T, uint16_t>(out);
+            add_cvt_if<T, int32_t>(out);
+            add_cvt_if<T, uint32_t>(out);
+            add_cvt_if<T, int64_t>(out);
+            add_cvt_if<T, uint64_t>(out);
+            add_cvt_if<T, float>(out);
+            add_cvt_if<T, double>(out);
+        }
+
         template <class T>
         void add_complex(std::vector<OpEntry>& out)
         {
@@ -363,28 +392,17 @@ namespace c04
         add_type<double>(out);
         add_complex<float>(out);
         add_complex<double>(out);
-        // converting forms (register T <- memory U): same-size pairs take the fast_cast path where the ISA has one, the others the scratch-buffer path
-        add_cvt<float, int32_t>(out);
-        add_cvt<float, double>(out);
-        add_cvt<float, int16_t>(out);
-        add_cvt<float, uint8_t>(out);
-        add_cvt<double, int64_t>(out);
-        add_cvt<double, float>(out);
-        add_cvt<double, int32_t>(out);
-        add_cvt<int32_t, float>(out);
-        add_cvt<int32_t, double>(out);
-        add_cvt<int32_t, int8_t>(out);
-        add_cvt<int32_t, uint16_t>(out);
-        add_cvt<int32_t, int64_t>(out);
-        add_cvt<uint32_t, float>(out);
-        add_cvt<uint32_t, uint8_t>(out);
-        add_cvt<int64_t, double>(out);
-        add_cvt<int64_t, int32_t>(out);
-        add_cvt<uint64_t, uint32_t>(out);
-        add_cvt<int16_t, int8_t>(out);
-        add_cvt<int16_t, int32_t>(out);
-        add_cvt<uint16_t, uint8_t>(out);
-        add_cvt<uint8_t, int32_t>(out);
-        add_cvt<int8_t, int64_t>(out);
+        // converting forms (register T <- memory U), every ordered pair of the 10 element types: same-size pairs take the fast_cast /
+        // bitwise paths where the ISA has one, the others the scratch-buffer path (load_as does not accept long long / char, so those are not instantiated)
+        add_cvt_row<int8_t>(out);
+        add_cvt_row<uint8_t>(out);
+        add_cvt_row<int16_t>(out);
+        add_cvt_row<uint16_t>(out);
+        add_cvt_row<int32_t>(out);
+        add_cvt_row<uint32_t>(out);
+        add_cvt_row<int64_t>(out);
+        add_cvt_row<uint64_t>(out);
+        add_cvt_row<float>(out);
+        add_cvt_row<double>(out);
     }
 }
